@@ -188,6 +188,8 @@ type vlObj struct {
 	lastMalloc int  // size of the tail of the most recent Malloc that was not split yet
 	live       []*vlRes
 	parent     int
+	wr         Writer // when set, writer ops go through this adapter (zcWriter) instead of lb
+	flushFn    func() // when set, "flush" is performed by the adapter's owner
 	bookSize   int
 	maxSize    int
 	reads      int
@@ -458,6 +460,10 @@ func (x *vlExec) apply(op vlOp) bool {
 	}
 	lb := o.lb
 	isBuf := o.kind == vlKindBuf
+	wr := Writer(lb)
+	if o.wr != nil {
+		wr = o.wr
+	}
 	if o.appended && op.K != "flush" && op.K != "append" {
 		return false
 	}
@@ -471,7 +477,7 @@ func (x *vlExec) apply(op vlOp) bool {
 			return false
 		}
 		w0 := lb.write
-		p, err := lb.Malloc(op.N)
+		p, err := wr.Malloc(op.N)
 		if err != nil {
 			x.fail("malloc_err", "Malloc(%d) err=%v", op.N, err)
 			return true
@@ -502,9 +508,9 @@ func (x *vlExec) apply(op vlOp) bool {
 		var err error
 		w0 := lb.write
 		if op.K == "wbin" {
-			n, err = lb.WriteBinary(p)
+			n, err = wr.WriteBinary(p)
 		} else {
-			n, err = lb.WriteString(unsafeSliceToString(p))
+			n, err = wr.WriteString(unsafeSliceToString(p))
 		}
 		if err != nil || n != len(p) {
 			x.fail("write_ret", "%s(%d) = %d, %v", op.K, len(p), n, err)
@@ -525,7 +531,7 @@ func (x *vlExec) apply(op vlOp) bool {
 			return false
 		}
 		b := byte(op.S)
-		if err := lb.WriteByte(b); err != nil {
+		if err := wr.WriteByte(b); err != nil {
 			x.fail("write_ret", "WriteByte err=%v", err)
 			return true
 		}
@@ -541,7 +547,7 @@ func (x *vlExec) apply(op vlOp) bool {
 			return false
 		}
 		p := x.payloadCap(op.N, op.S)
-		if err := lb.WriteDirect(p, remain); err != nil {
+		if err := wr.WriteDirect(p, remain); err != nil {
 			x.fail("write_ret", "WriteDirect err=%v", err)
 			return true
 		}
@@ -565,7 +571,7 @@ func (x *vlExec) apply(op vlOp) bool {
 		if op.N < 0 || op.N > len(o.pending) {
 			return false
 		}
-		if err := lb.MallocAck(op.N); err != nil {
+		if err := wr.MallocAck(op.N); err != nil {
 			x.fail("mack_err", "MallocAck(%d) err=%v", op.N, err)
 			return true
 		}
@@ -594,7 +600,7 @@ func (x *vlExec) apply(op vlOp) bool {
 		if len(d.readable)+len(d.pending) > 0 {
 			d.live = nil // results of an appended buffer end with it (doc: cannot be used any more)
 		}
-		if err := lb.Append(d.lb); err != nil {
+		if err := wr.Append(d.lb); err != nil {
 			x.fail("append_err", "Append err=%v", err)
 			return true
 		}
@@ -610,6 +616,14 @@ func (x *vlExec) apply(op vlOp) bool {
 	case "flush":
 		if !isBuf {
 			return false
+		}
+		if o.flushFn != nil {
+			o.flushFn() // the adapter case checks the sink side and maintains o.readable itself
+			o.pending = o.pending[:0:0]
+			o.appended = false
+			o.epochWB, o.epochWD, o.lastMalloc = false, false, 0
+			x.st.flushes++
+			return true
 		}
 		if err := lb.Flush(); err != nil {
 			x.fail("flush_err", "Flush err=%v", err)
